@@ -128,6 +128,22 @@ func (g *glog) count(kind string) int {
 	return n
 }
 
+// moveStopFirst: the old scheduler goroutine logs "stop" a moment after Stop() has returned, so a
+// goroutine started by a following Start may log first; the stop request was taken before that
+// Start began (runningMu), so the "stop" record belongs before them.
+func (g *glog) moveStopFirst(from int) {
+	g.mu.Lock()
+	defer g.mu.Unlock()
+	for i := from; i < len(g.recs); i++ {
+		if g.recs[i].kind == "stop" {
+			x := g.recs[i]
+			copy(g.recs[from+1:i+1], g.recs[from:i])
+			g.recs[from] = x
+			return
+		}
+	}
+}
+
 func (g *glog) slice(from int) []rec {
 	g.mu.Lock()
 	defer g.mu.Unlock()
